@@ -179,7 +179,7 @@ pub trait EmitAndCount {
 //%before "let count = count_was_truncated(encoder.emit_iter([&Record::from(&edns)]))?;"
         let vp_rec = Record::from(&edns);
         // C02: the OPT record that is written carries exactly the high bits of THIS message's rcode
-        assert(((vp_rec.ttl >> 24) as u8) as int == (rcode_val(metadata.response_code) & 0x0FF0) >> 4);
+        assert(((vp_rec.ttl >> 24) as u8) as int == (rcode_val(metadata.response_code) & 0x0FF0) >> 4);     // C02: obligation
         proof { axiom_items_array1::<&Record<RData>>(); }
 //%sub1 "encoder.emit_iter([&Record::from(&edns)])" => "encoder.emit_iter([&vp_rec])" # R-tail: the temporary is let-bound one line earlier so that a proof block can name it
 //%before "} else if metadata.response_code.high() > 0"
@@ -190,10 +190,10 @@ pub trait EmitAndCount {
 //%before "let counts = HeaderCounts"
     // C03: "header counts equal the records present ... TC set whenever a record was dropped"
     assert(additional_count.0 as int == n_add + n_edns + count.0);
-    assert(additional_count.1 == (t_add || t_edns || count.1));
+    assert(additional_count.1 == (t_add || t_edns || count.1));     // C03: obligation
 //%before "let header = Header"
-    assert(final_metadata.truncation == (metadata.truncation || t_ans || t_auth || t_add || t_edns || count.1));
-    assert(!(t_ans || t_auth || t_add || t_edns || count.1) ==> final_metadata.truncation == metadata.truncation);
+    assert(final_metadata.truncation == (metadata.truncation || t_ans || t_auth || t_add || t_edns || count.1));     // C03: obligation
+    assert(!(t_ans || t_auth || t_add || t_edns || count.1) ==> final_metadata.truncation == metadata.truncation);     // C03: obligation
 //%mutant tc_overwritten_by_edns "count.0; additional_count.1 |= count.1; } else if" => "count.0; additional_count.1 = count.1; } else if"
 //%mutant tc_not_propagated "metadata.truncation || answer_count.1 || authority_count.1 || additional_count.1" => "metadata.truncation || answer_count.1 || authority_count.1"
 //%mutant stale_rcode_high "edns.set_rcode_high(metadata.response_code.high());" => "if metadata.response_code.high() > 0 { edns.set_rcode_high(metadata.response_code.high()); }"
@@ -240,9 +240,9 @@ fn servfail_fallback(vp_bytes: Vec<u8>, id: u16) -> (r: Result<(), ProtoError>)
     // to the caller right after this range (`Ok((ResponseInfo::from(header), bytes))`) -- holds now is exactly the 12-octet
     // SERVFAIL header carrying the request's ID.  That `bytes` is the Vec the encoder wrote through is the language's
     // borrow semantics, not re-proved here.
-    assert(encoder.bytes().len() == 12);
-    assert(hdr_bytes_at(header, encoder.bytes(), 0, 0xFF));
-    assert(header.metadata.id == id && header.metadata.response_code == ResponseCode::ServFail);
+    assert(encoder.bytes().len() == 12);     // C03: obligation
+    assert(hdr_bytes_at(header, encoder.bytes(), 0, 0xFF));     // C03: obligation
+    assert(header.metadata.id == id && header.metadata.response_code == ResponseCode::ServFail);     // C11: obligation
     Ok(())
 }
 
